@@ -52,7 +52,8 @@ type G struct {
 	pend      op
 	hash      uint64
 	fruitless map[uint64]bool
-	yielded   bool
+	cycled    bool // completed a full pass of fruitless operations since anybody last progressed
+	lastFruitless bool
 	done      bool
 	spawnN    int
 	newN      int
@@ -97,8 +98,6 @@ type Exec struct {
 	wg                sync.WaitGroup
 	cacheHit          bool
 	ex                *Explorer
-	inIdle            bool
-	idleRoundLeft     map[string]bool
 	CapMap            func(n int, site string) int
 	Clock             int64
 	ClockChoice       bool
@@ -131,6 +130,22 @@ func enter() (*Exec, *G) {
 		panic(abortT{})
 	}
 	return x, x.cur
+}
+
+// markFruitless records an operation that changed nothing (a poll that took
+// default, a sleep, a spin-lock). Meeting the same fruitless operation twice
+// without anybody progressing in between means the goroutine completed a whole
+// polling pass in vain: it becomes a yielder.
+func (g *G) markFruitless(key uint64) {
+	if X != nil && X.keepTrace {
+		X.Trace = append(X.Trace, fmt.Sprintf("%s fruitless %x (cycled-before=%v known=%v)", g.id, key, g.cycled, g.fruitless[key]))
+	}
+	if g.fruitless[key] {
+		g.cycled = true
+	} else {
+		g.fruitless[key] = true
+	}
+	g.lastFruitless = true
 }
 
 // ---------------------------------------------------------------- hooks
@@ -319,9 +334,11 @@ func Default(ch interface{}, site string) {
 	if x == nil {
 		return
 	}
-	_, _, ci := x.chanOf(ch, site)
-	g.fruitless[h64("default", ci.cid, site)] = true
-	g.yielded = true
+	p, rv, ci := x.chanOf(ch, site)
+	if x.keepTrace {
+		x.Trace = append(x.Trace, fmt.Sprintf("%s poll-default %s chan=%x cid=%x ext=%v len=%d", g.id, site, p, ci.cid, ci.ext, rv.Len()))
+	}
+	g.markFruitless(h64("default", ci.cid, site))
 }
 
 // PreClose must be called right before close(ch).
@@ -360,8 +377,9 @@ func Sleep(d time.Duration, site string) {
 	}
 	x.park(g, op{kind: opSleep, site: site})
 	x.Clock += int64(d)
-	g.fruitless[h64("sleep", site)] = true
-	g.yielded = true
+	// the same Sleep statement may follow several different polls of one pass: it only closes a
+	// cycle when nothing new was polled since its previous execution
+	g.markFruitless(h64("sleep", site, len(g.fruitless)))
 }
 
 // Now replaces time.Now in instrumented files.
@@ -444,7 +462,7 @@ func (m *MutexState) Lock() {
 	m.held = true
 	if spinPos && g.lastVer[m] == m.ver {
 		// re-locking right after our own unlock with nothing changed in between: a spin iteration
-		g.fruitless[h64("lock", m.id, m.ver)] = true
+		g.markFruitless(h64("lock", m.id, m.ver))
 		g.spinLock = true
 	} else {
 		g.hash = h64(g.hash, "lock", m.id, m.ver)
@@ -462,7 +480,6 @@ func (m *MutexState) Unlock() {
 	m.held = false
 	if g.spinLock {
 		g.lastUnlock = m
-		g.yielded = true
 		g.spinLock = false
 		return
 	}
@@ -524,14 +541,18 @@ func (w *WGState) Wait() {
 }
 
 func (x *Exec) progress(g *G) {
-	g.yielded = false
+	g.cycled = false
+	g.lastFruitless = false
 	g.lastUnlock = nil
 	for _, o := range x.order {
-		if o != g {
-			o.yielded = false
+		if o != g && !o.done {
+			// whatever the others polled in vain may succeed now: they start a new pass
+			o.cycled = false
+			if len(o.fruitless) > 0 {
+				o.fruitless = map[uint64]bool{}
+			}
 		}
 	}
-	x.inIdle = false
 }
 
 // ---------------------------------------------------------------- scheduler core
@@ -558,7 +579,7 @@ func (x *Exec) enabled(g *G) bool {
 }
 
 func (x *Exec) isYielder(o *G) bool {
-	if !o.yielded {
+	if !o.cycled {
 		return false
 	}
 	switch o.pend.kind {
@@ -623,27 +644,12 @@ func (x *Exec) switchFrom(g *G, exiting bool) {
 		}
 	}
 	if len(en) == 0 && len(yielders) > 0 {
-		if !x.inIdle {
-			x.inIdle = true
-			x.idleRoundLeft = map[string]bool{}
-			for _, y := range yielders {
-				x.idleRoundLeft[y.id] = true
-			}
-		}
-		var cand []*G
-		for _, y := range yielders {
-			if x.idleRoundLeft[y.id] {
-				cand = append(cand, y)
-			}
-		}
-		if len(cand) == 0 {
-			x.Status = "spin"
-			x.Detail = x.describe()
-			x.stop(g, exiting)
-			return
-		}
-		en = cand[:1]
-		delete(x.idleRoundLeft, en[0].id)
+		// every goroutine that could still act has completed a full polling pass since the last
+		// progress of anybody and found nothing: the execution spins forever
+		x.Status = "spin"
+		x.Detail = x.describe()
+		x.stop(g, exiting)
+		return
 	}
 	if len(en) == 0 {
 		all := true
@@ -675,7 +681,7 @@ func (x *Exec) switchFrom(g *G, exiting bool) {
 	}
 	i := len(x.Choices)
 	c := 0
-	pt := Point{RunIdx: runIdx, Yield: g.yielded}
+	pt := Point{RunIdx: runIdx, Yield: g.lastFruitless}
 	for _, o := range en {
 		pt.Enabled = append(pt.Enabled, o.id)
 	}
